@@ -24,6 +24,8 @@ inline VpIqMap::unordered_map() : t(new Tbl)
     for (unsigned i = 0; i <= VP_MAP_CAP; i++) t->s[i] = new Tbl::Slot;
     new (&t->s[VP_MAP_CAP]->u.v) value_type(QString(), mapped_type {});
 }
+inline VpIqMap::unordered_map(unordered_map &&o) : unordered_map() { swap(o); }
+inline VpIqMap &VpIqMap::operator=(unordered_map &&o) { clear(); swap(o); return *this; }
 inline VpIqMap::value_type *VpIqMap::slot(unsigned i) const { return &vpSlot(t, i)->u.v; }
 inline bool VpIqMap::used(unsigned i) const { return vpSlot(t, i)->used; }
 inline int VpIqMap::freeSlot() const { for (int i = VP_MAP_CAP - 1; i >= 0; i--) if (!t->s[i]->used) return i; return -1; }
